@@ -71,6 +71,9 @@ class C16(Prop):
                 t_steps = max(0, d_steps - 128)
             e_steps = (0, 128, 1)[s.draw(3, "e")] if outcome.startswith("ignore") else 0
             t0_steps = (0, 384, 5)[s.draw(3, "t0")]
+            # the wrapped function may itself be a haiway wrapper object (stacked decorators): an inner timeout
+            # that never fires must not change anything
+            stacked = s.chance(1, 5, "stacked")
             c_steps = None
             if profile in ("timed", "jitter") and ci == 0:
                 ck = s.draw(8, "c")
@@ -90,8 +93,10 @@ class C16(Prop):
                     c_steps = hi + 64
                 elif ck == 7:
                     c_steps = lo - 1 if lo > start else None
+            if ci == 1 and s.chance(1, 2, "share-wrapper"):
+                t_steps, stacked = specs[0]["T"], specs[0]["stacked"]
             specs.append({"d": d_steps, "outcome": outcome, "T": t_steps, "e": e_steps, "t0": t0_steps,
-                          "c": c_steps})
+                          "c": c_steps, "stacked": int(stacked)})
         sim.program = {"calls": specs, "inject_at_iteration": sim.inject_choice if profile == "sweep" else 0}
         jitter = sim.jitter_steps * GRID
 
@@ -164,11 +169,33 @@ class C16(Prop):
             out["at"] = sim.now
             sim.event("caller-outcome", ci, out["kind"])
 
+        fns = [make_fn(ci, spec) for ci, spec in enumerate(specs)]
+
+        async def dispatch(arg, *, kw=None):
+            # one function object for all calls: overlapping calls with equal timeout share ONE wrapper object
+            ci = arg[1] if isinstance(arg, tuple) and len(arg) == 2 and isinstance(arg[1], int) and arg[1] < len(fns) else 0
+            return await fns[ci][0](arg, kw=kw)
+
+        dispatch.__name__ = "fn"
+        wrappers = {}
+
+        def wrapper_for(spec):
+            key = (spec["T"], spec["stacked"])
+            if key not in wrappers:
+                if spec["stacked"]:
+                    sim.stats["stacked_decorators"] += 1
+                    wrappers[key] = timeout(spec["T"] * GRID)(timeout(8192 * GRID)(dispatch))
+                else:
+                    wrappers[key] = timeout(spec["T"] * GRID)(dispatch)
+            else:
+                sim.stats["overlapping_calls_share_wrapper"] += 1
+            return wrappers[key]
+
         async def main():
             tasks = []
             for ci, spec in enumerate(specs):
-                fn, rec = make_fn(ci, spec)
-                wrapped = timeout(spec["T"] * GRID)(fn)
+                fn, rec = fns[ci]
+                wrapped = wrapper_for(spec)
                 out = {"kind": None, "cancel_ret": None, "cancel_at": None}
                 t = sim.loop.create_task(caller(ci, spec, wrapped, out))
                 calls.append((spec, rec, out, t))
@@ -291,7 +318,7 @@ class C16(Prop):
         if got not in accept:
             sim.fail_post("outcome", f"call {ci}: caller got {kind} {describe_exc(obj) if isinstance(obj, BaseException) else obj!r} "
                           f"at {at}, acceptable {sorted(accept)} (d={spec['d']}, T={spec['T']}, outcome={o}, cancel={out['cancel_ret']}@{tc})",
-                          got=str(kind), want="|".join(sorted(accept)), fn=o)
+                          got=str(kind), want="|".join(sorted(accept)), fn=o, **({"stacked": 1} if spec.get("stacked") else {}))
             return
         # timestamps
         if got == "timeout":
